@@ -21,6 +21,7 @@ class Likelihood:
         self.shift = shift
         self.n_points = 0
         self.n_calls = 0
+        self.n_inf = 0
         self.by_x = {}
         self.by_id = {}
         self.order = []          # evaluation order of x-bytes (for schedule monitors)
@@ -55,6 +56,7 @@ class Likelihood:
             with self._lock:
                 self.n_calls += 1
                 self.n_points += len(x)
+                self.n_inf += int(np.sum(np.isneginf(ll)))
                 if self.keep_log:
                     for xi, li in zip(x, ll):
                         self.by_x[xi.tobytes()] = float(li)
@@ -68,6 +70,7 @@ class Likelihood:
         with self._lock:
             self.n_calls += 1
             self.n_points += 1
+            self.n_inf += int(ll == -np.inf)
             k = x.tobytes()
             if self.keep_log:
                 self.by_x[k] = ll
